@@ -13,6 +13,7 @@ import PygProofs.Lemmas.BitempFrames
 import PygProofs.Lemmas.BitempCols
 import PygProofs.Lemmas.BitempFirstS
 import PygProofs.Lemmas.BitempEmb
+import PygProofs.Lemmas.BitempH5
 
 namespace Pyg.Props.C17
 open Pyg Pyg.Bitemp
@@ -1066,5 +1067,134 @@ theorem frame_one_column (log : List Version) :
       simp only [List.map_cons, List.foldl_cons, hBi, biMergeF_emb]
       exact ih (some (biMerge acc (Bi v.ts v.stamp)))
   exact key log Option.none
+
+/-! ## round h5 (review s5): idempotence for the REST of the history, the sharp literal-first condition, reads without an as-of time -/
+
+/-- **idempotence, as a statement about the future**: after merging a version that is already in the store (every row of it is a row of
+    the store - it may be stamped EARLIER than the last version, so that `log ++ [w]` is not a stamp-ordered log and no other theorem of
+    this file would apply to what follows) the history goes on exactly as if the re-merge had not happened: whatever stamp-ordered
+    versions `later` are merged afterwards, every as-of read and every first read of the resulting store equals the read of the history
+    without the re-merge, i.e. the fold of the publication log `log ++ later`. -/
+theorem merge_idem_future (log : List Version) (h : Ordered log) (st : Store) (hst : history log = some st) (w : Version)
+    (hin : ∀ p ∈ w.ts, (⟨p.1, w.stamp, p.2⟩ : Row) ∈ st)
+    (later : List Version) (hl : Ordered (log ++ later)) (T : Option Int) :
+    ∃ st₁ st₂, later.foldl (fun s v => some (biMerge s (Bi v.ts v.stamp))) (some (biMerge (some st) (Bi w.ts w.stamp))) = some st₁ ∧
+      history (log ++ later) = some st₂ ∧
+      biRead st₁ T (-1) = biRead st₂ T (-1) ∧ biRead st₁ T 0 = biRead st₂ T 0 ∧
+      biRead st₁ T (-1) = specRead (log ++ later) T ∧ biRead st₁ T 0 = specFirst (log ++ later) T := by
+  obtain ⟨st', hst', hinv⟩ := history_inv log h.ne h.wf h.stamps
+  rw [hst] at hst'; cases hst'
+  have hs := logRows_sorted _ hl.stamps
+  obtain ⟨st₁, e1, i1⟩ := inv_foldl later _ log (inv_remerge hinv w hin) hs
+  obtain ⟨st₂, e2, i2⟩ := inv_foldl later st log hinv hs
+  have hsl : ∀ d, SortedLe (group d (logRows (log ++ later))) := fun d => hs.sublist List.filter_sublist
+  have r1 : biRead st₁ T (-1) = specRead (log ++ later) T := by
+    rw [biRead_last st₁ i1.1, specRead_eq, specRows_congr i1.2.1]
+  have r2 : biRead st₂ T (-1) = specRead (log ++ later) T := by
+    rw [biRead_last st₂ i2.1, specRead_eq, specRows_congr i2.2.1]
+  have f1 : biRead st₁ T 0 = specFirst (log ++ later) T := by
+    rw [biRead_first st₁ i1.1, specFirst_eq]
+    exact firstRows_congr i1.2.1 (fun d => (i1.1 d).1.le) hsl T
+  have f2 : biRead st₂ T 0 = specFirst (log ++ later) T := by
+    rw [biRead_first st₂ i2.1, specFirst_eq]
+    exact firstRows_congr i2.2.1 (fun d => (i2.1 d).1.le) hsl T
+  refine ⟨st₁, st₂, e1, ?_, r1.trans r2.symm, f1.trans f2.symm, r1, f1⟩
+  rw [history_append, hst]; exact e2
+
+-- the hypotheses are satisfiable with a version stamped EARLIER than the last one and a non-trivial continuation (reviewer's probe):
+-- `3@10 (dates 1,2), 5@11, 3@12`, re-merge the first version (stamp 10), then continue with stamps 13, 13, 14
+example : Ordered ([⟨10, [(1, some 3), (2, some 1)]⟩, ⟨11, [(1, some 5)]⟩, ⟨12, [(1, some 3)]⟩] ++
+    [⟨13, [(1, some 3), (2, Option.none)]⟩, ⟨13, [(1, some 5)]⟩, ⟨14, [(2, some 1)]⟩]) :=
+  ⟨by simp, by decide, by decide⟩
+#guard (history [⟨10, [(1, some 3), (2, some 1)]⟩, ⟨11, [(1, some 5)]⟩, ⟨12, [(1, some 3)]⟩]).map
+    (fun st => ([(1, some 3), (2, some 1)] : TS).all fun p => st.contains ⟨p.1, 10, p.2⟩) = some true
+
+/-- **first read, literal - the sharp sufficient condition**: only the date's FIRST stamp matters.  If, for every date, each later
+    publication (visible as of `T`) that shares the stamp of the date's first publication is NaN or repeats the first value, then
+    `bi_read(what=0)` returns the first value published per date - the clause as it is written.  (`5@10, 6@11, 7@11` and
+    `5@10, NaN@10, 5@10` satisfy this; `read_first_literal`'s hypothesis - all stamps of the date distinct - excludes both.)
+    The exact condition is `read_first_literal_iff`; it is not "no second publication shares the first stamp" (that is sufficient,
+    `read_first_literal_first_stamp`, not necessary). -/
+theorem read_first_literal_sharp (log : List Version) (h : Ordered log) (T : Option Int)
+    (hd : ∀ d r rest, group d (pubs log T) = r :: rest →
+      ∀ r' ∈ rest, r'.stamp = r.stamp → r'.val = Option.none ∨ r'.val = r.val) :
+    ∃ st, history log = some st ∧ biRead st T 0 = specFirstLiteral log T := by
+  obtain ⟨st, hst, hiff⟩ := read_first_literal_iff log h T
+  refine ⟨st, hst, hiff.2 ?_⟩
+  intro d _
+  match hg : group d (pubs log T) with
+  | [] => rfl
+  | r :: rest =>
+    have hB : ∀ b ∈ rest.filter (·.stamp == r.stamp), b.val = Option.none ∨ b.val = r.val := by
+      intro b hb
+      obtain ⟨hb1, hb2⟩ := List.mem_filter.mp hb
+      exact hd d r rest hg b hb1 (by simpa using hb2)
+    have hf : (r :: rest).filter (·.stamp == r.stamp) = r :: rest.filter (·.stamp == r.stamp) := by
+      simp
+    simp only [firstVal, hf, lastVal_cons, List.head?_cons, Option.bind_some]
+    rcases lastVal_noop r.val _ hB with e | e <;> rw [e]
+    · rfl
+    · cases r.val <;> rfl
+
+/-- the simplest useful form: no later publication of the date shares the stamp of its first publication -/
+theorem read_first_literal_first_stamp (log : List Version) (h : Ordered log) (T : Option Int)
+    (hd : ∀ d r rest, group d (pubs log T) = r :: rest → ∀ r' ∈ rest, r'.stamp ≠ r.stamp) :
+    ∃ st, history log = some st ∧ biRead st T 0 = specFirstLiteral log T :=
+  read_first_literal_sharp log h T (fun d r rest hg r' hr' he => absurd he (hd d r rest hg r' hr'))
+
+/-- the two histories of the review: the hypothesis of `read_first_literal_sharp` holds, that of `read_first_literal` does not -/
+def lateTie : List Version := [⟨10, [(1, some 5)]⟩, ⟨11, [(1, some 6)]⟩, ⟨11, [(1, some 7)]⟩]
+def firstTieNan : List Version := [⟨10, [(1, some 5)]⟩, ⟨10, [(1, Option.none)]⟩, ⟨10, [(1, some 5)]⟩]
+#guard (history lateTie).map (fun st => (biRead st Option.none 0, specFirstLiteral lateTie Option.none)) = some ([(1, some 5)], [(1, some 5)])
+#guard ((group 1 (pubs lateTie Option.none)).map (·.stamp)) = [10, 11, 11]
+#guard (history firstTieNan).map (fun st => (biRead st Option.none 0, specFirstLiteral firstTieNan Option.none)) = some ([(1, some 5)], [(1, some 5)])
+#guard ((group 1 (pubs firstTieNan Option.none)).map (fun r => (r.stamp, r.val))) = [(10, some 5), (10, Option.none), (10, some 5)]
+
+/-- **"no asof" is "as of any time after all stamps"**: `bi_read(store)` without an as-of time returns what `bi_read(store, asof=M)`
+    returns for every `M` that no stamp exceeds - for the default read and the first read. -/
+theorem read_noasof (log : List Version) (h : Ordered log) (st : Store) (hst : history log = some st) (M : Int)
+    (hM : ∀ v ∈ log, v.stamp ≤ M) :
+    biRead st Option.none (-1) = biRead st (some M) (-1) ∧ biRead st Option.none 0 = biRead st (some M) 0 := by
+  obtain ⟨s1, e1, r1⟩ := read_spec log h Option.none
+  obtain ⟨s2, e2, r2⟩ := read_spec log h (some M)
+  obtain ⟨s3, e3, r3⟩ := read_first log h Option.none
+  obtain ⟨s4, e4, r4⟩ := read_first log h (some M)
+  rw [hst] at e1 e2 e3 e4; cases e1; cases e2; cases e3; cases e4
+  rw [r1, r2, r3, r4]
+  simp only [specRead, specFirst, pubs_none_eq log M hM, and_self]
+
+/-- **value of the read without as-of time, declaratively** (`read_value` for `bi_read(store)`): `x` is shown for `d` iff some
+    version publishes `x` for `d` and no version merged after it publishes a non-NaN value for `d`. -/
+theorem read_value_noasof (log : List Version) (h : Ordered log) (st : Store) (hst : history log = some st) (d x : Int) :
+    (d, some x) ∈ biRead st Option.none (-1) ↔
+      ∃ before v after, log = before ++ v :: after ∧ (d, some x) ∈ v.ts ∧ ∀ u ∈ after, ∀ y, (d, some y) ∉ u.ts := by
+  obtain ⟨M, hM⟩ := exists_stamp_bound log
+  rw [(read_noasof log h st hst M hM).1, read_value log h M st hst]
+  constructor
+  · rintro ⟨b, v, a, e, _, h2, h3⟩
+    exact ⟨b, v, a, e, h2, fun u hu => h3 u hu (hM u (by rw [e]; simp [hu]))⟩
+  · rintro ⟨b, v, a, e, h2, h3⟩
+    exact ⟨b, v, a, e, hM v (by rw [e]; simp), h2, fun u hu _ => h3 u hu⟩
+
+/-- **NaN row of the read without as-of time**: NaN is shown for `d` iff `d` was published and every publication of `d` is NaN -/
+theorem read_nan_noasof (log : List Version) (h : Ordered log) (st : Store) (hst : history log = some st) (d : Int) :
+    (d, Option.none) ∈ biRead st Option.none (-1) ↔
+      (∃ v ∈ log, d ∈ v.ts.index) ∧ ∀ v ∈ log, ∀ y, (d, some y) ∉ v.ts := by
+  obtain ⟨M, hM⟩ := exists_stamp_bound log
+  rw [(read_noasof log h st hst M hM).1, read_nan log h M st hst]
+  constructor
+  · rintro ⟨⟨v, hv, _, hd⟩, hall⟩
+    exact ⟨⟨v, hv, hd⟩, fun u hu => hall u hu (hM u hu)⟩
+  · rintro ⟨⟨v, hv, hd⟩, hall⟩
+    exact ⟨⟨v, hv, hM v hv, hd⟩, fun u hu _ => hall u hu⟩
+
+/-- the dates of the read without as-of time: exactly the dates some version contains -/
+theorem read_dates_noasof (log : List Version) (h : Ordered log) (st : Store) (hst : history log = some st) (d : Int) :
+    d ∈ (biRead st Option.none (-1)).index ↔ ∃ v ∈ log, d ∈ v.ts.index := by
+  obtain ⟨M, hM⟩ := exists_stamp_bound log
+  rw [(read_noasof log h st hst M hM).1, read_dates log h M st hst]
+  constructor
+  · rintro ⟨v, hv, _, hd⟩; exact ⟨v, hv, hd⟩
+  · rintro ⟨v, hv, hd⟩; exact ⟨v, hv, hM v hv, hd⟩
 
 end Pyg.Props.C17
